@@ -175,7 +175,8 @@ Definition locked_fns_q : list (string * string) :=   (* (qualified name, name a
    ("fetchStructDesc", "fetchStructDesc"); ("newStructDesc", "newStructDesc");
    ("structDesc.fromDefsFields", "fromDefsFields"); ("tField.fromDefsField", "fromDefsField");
    ("newTType", "newTType"); ("updateListAppendFunc", "updateListAppendFunc");
-   ("updateMapAppendFunc", "updateMapAppendFunc"); ("initOrGetMapTmpVarsPool", "initOrGetMapTmpVarsPool")].
+   ("updateMapAppendFunc", "updateMapAppendFunc"); ("initOrGetMapTmpVarsPool", "initOrGetMapTmpVarsPool");
+   ("commitPending", "commitPending"); ("rollbackPending", "rollbackPending")].
 Definition locked_fns : list string := map fst locked_fns_q.
 Definition locked_closed : bool :=
   forallb (fun f => subset (callers_of (snd f)) ("createStructDesc" :: locked_fns)) locked_fns_q.
@@ -189,6 +190,7 @@ Definition access_ok : bool :=
   (* the two plain maps are touched only under the lock *)
   && subset (readers_of "ttypes" globals) locked_fns
   && subset (readers_of "prefetchStructDescCache" globals) locked_fns
+  && subset (readers_of "pendingTypes" globals) locked_fns && subset (readers_of "pendingNodes" globals) locked_fns
   (* the descriptor map is written only by createStructDesc (Set is called nowhere else) *)
   && subset (callers_of "Set") ["createStructDesc"; "Append"; "EncodedSize"]
   (* tType.Sd is assigned only while building under the lock *)
@@ -203,6 +205,7 @@ Definition access_ok : bool :=
                 match ws with
                 | [] => true
                 | _ => str_in n ["ttypes"; "prefetchStructDescCache"; "listAppendFuncs"; "mapAppendFuncs"; "hackErrMsg"]
+                       || (str_in n ["pendingTypes"; "pendingNodes"] && subset ws locked_fns)
                 end) globals
   (* every pooled object is put back by the function that took it *)
   && forallb (fun u => let '(_, _, paired) := u in paired) pool_uses.
